@@ -94,7 +94,7 @@ var sessFamilies = map[string]SessFamily{
 	"gensort":     {"gensort", "MC_GenSort", []string{"C15"}, false},
 	"gensep":      {"gensep", "MC_GenSep", []string{"C13", "C01"}, false},
 	"genaddr":     {"genaddr", "MC_GenAddr", []string{"C11"}, false},
-	"boundary":    {"boundary", "MC_Boundary", []string{"C19", "nodrift"}, false},
+	"boundary":    {"boundary", "MC_Boundary", []string{"C19", "C04", "nodrift"}, false},
 	"custom":      {"custom", "MC_Custom", []string{"C17"}, false},
 	"custombad":   {"custombad", "MC_CustomBad", []string{"C17"}, false},
 	"custombadto": {"custombadto", "MC_CustomBadTo", []string{"C17"}, false},
